@@ -2,6 +2,8 @@
 import re
 
 from ..core.engine import Res
+from ..core.origins import Origins
+from ..core.facts import AnchorMissing
 from ..core.rules import install, wire, must_pass, guard, assigns
 from ..core.fa_rule import run_entries, fail_atomic
 from ..core.panics import panic_audit
@@ -39,9 +41,43 @@ def observer_api(P):
 PANIC_SETS = {'observer': (observer_api, 'the public ExternalGroup / ExternalClient API')}
 
 
+def own_sender_slot(P):
+    """A proposal the observer issues names its slot in the group's external_senders list; members verify the signature against the
+    entry at that slot. The slot must be the entry equal to the observer's WHOLE signing identity (credential and key): matching on
+    one field picks another entry whenever two entries share it (key rotation of one service)."""
+    from ..core.facts import callee_path, callee_name
+    fn = P.fn('ExternalGroup::propose')
+    r = Res()
+    body = P.body(fn)
+    pos = body.calls_named(r'Iterator::(position|find|find_map|rposition)$')
+    if not pos:
+        raise AnchorMissing('ExternalGroup::propose no longer searches the external senders list')
+    found = False
+    for k in [fn['key']] + P.closures_of(fn['key']):
+        b2 = P.body(P.fns[k])
+        o2 = Origins(b2)
+        for bi, t in b2.calls():
+            if not re.search(r'PartialEq::(eq|ne)$', callee_path(t)) or len(t['args']) != 2:
+                continue
+            a, c = o2.arg_str(t, 0), o2.arg_str(t, 1)
+            if 'signing_identity' not in a + ' ' + c:
+                continue
+            found = True
+            r.site('%s @%s %s == %s' % (P.fns[k]['qual'], b2.ln(bi), a[:50], c[:50]))
+            for side in (a, c):
+                if re.search(r'\.(credential|signature_key)\b', side):
+                    r.bad('partial-identity', 'ExternalGroup::propose locates its own entry in external_senders by `%s == %s`: only part of the signing '
+                          'identity is compared, so another entry with the same %s is taken for the observer\'s own' % (a[:80], c[:80], side.rsplit('.', 1)[-1]),
+                          where=[b2.ln(bi)])
+    if not found:
+        r.bad('comparison-missing', 'ExternalGroup::propose no longer compares its signing identity with the entries of external_senders')
+    return r
+
+
 def run(ctx):
     P = ctx.P
     cfg = ctx.config
+    ctx.check('WIRE', 'observer proposals name the external-sender slot that holds the observer\'s own identity and key', own_sender_slot, floor=1)
 
     def no_override(P_):
         r = Res()
